@@ -99,6 +99,9 @@ def cmd_check(args):
         canary_stats["not_contradictory_within_budget"] = canary_stats.get("not_contradictory_within_budget", 0) + \
             len([ob for ob in exits if verdicts[ob["name"]]["verdict"] == "unknown"])
         canary_stats["infeasible_paths"] += len([ob for ob in exits if verdicts[ob["name"]]["verdict"] == "proved"])
+        if not exits and not getattr(registry[u["key"]], "may_raise", False):
+            engine_errors.append(f"unit {u['key']}@{u['label']} has no normal exit at all (every path raises): "
+                                 f"nothing was checked")
         if exits and not reach and not getattr(registry[u["key"]], "may_be_unreachable", False):
             engine_errors.append(f"canary: no reachable exit in {u['key']}@{u['label']} "
                                  f"(contradictory requires/axioms?) verdicts="
